@@ -1,5 +1,6 @@
 """C02 — exactly-once ownership: typestate discipline on the unsafe storage schemes (join, try_join,
 zip, race_ok), destructor agreement, hand-off on completion, who-may-touch audit, ownership audit."""
+from ..facts import base
 from .. import scan, families
 from ..families import short, self_path, sub_struct_pos
 from ..sites import is_agg, peel_type
@@ -9,8 +10,8 @@ from . import common, prims
 
 PROPERTY = "C02"
 LEVEL = "other"
-CONFIGS_QUICK = ["std", "alloc"]
-CONFIGS_THOROUGH = ["std", "alloc", "core"]
+CONFIGS_QUICK = ["std", "alloc", "std-rel"]
+CONFIGS_THOROUGH = ["std", "alloc", "core", "std-rel", "alloc-rel", "core-rel"]
 EXPLANATION = (
     "Typestate analysis of the slot invariant (Pending <=> child live & output uninit; Ready <=> child dropped & output init; "
     "None <=> neither) on the MIR of every poll body and PinnedDrop body that owns ManuallyDrop / MaybeUninit storage, for all "
@@ -72,7 +73,7 @@ def run(ctx):
         rule_who(ctx, M)
         rule_own(ctx, M)
         rule_util(ctx, M)
-        na = 1 if cfg == "core" else 2
+        na = 1 if base(cfg) == "core" else 2
         ctx.floor("C02.TRANS", cfg, 2 * 78 + 2 * na)
         ctx.floor("C02.DROP", cfg, 2 * 78 + 2 * na)
         ctx.floor("C02.HANDOFF", cfg, 2 * 12 + 2 * na)
